@@ -7,16 +7,18 @@ Everything is located in the AST of dcmstack_cli.main / nitool_cli.* (never impo
      followed by an in-place `+=`): emitted as booleans the model consumes, so that an aliasing
      edit (finding F10) makes `C19_no_state` unprovable,
   * the output naming: pieces of the default format, the characters sanitize_path_comp keeps, the
-    replacement character, the uniqueness suffix format '-%03d',
+    replacement character, the uniqueness suffix format '-%03d', whether the suffix search re-checks
+    (F13) and whether the set of names is shared by all source directories under --dest-dir (F18),
   * the ignore rules used by --extract-private,
-  * nitool split's default name format '%03d-%s'.
-Fail closed: any unexpected shape raises TableError."""
-import ast, re
+  * nitool split's default name format '%03d-%s', the type names / conversion order of inject.
+Code shapes are compared with expected snippets up to renaming of local variables (`_match`), so a
+renamed local does not abort the translation; any other unexpected shape raises TableError (fail closed)."""
+import ast, re, textwrap
 from astlib import *  # noqa: F401,F403
 
 WHAT = ("dcmstack_cli.main: argparse defaults, derivation of the regex lists from the module defaults (copy/alias), "
-        "default output name format, sanitize_path_comp character set, '-%03d' suffix, --extract-private rules; "
-        "nitool_cli: argparse defaults, split's default name format")
+        "default output name format, sanitize_path_comp character set, '-%03d' suffix and its search, where the set of generated "
+        "names lives, --extract-private rules; nitool_cli: argparse defaults, split's default name format, inject's type names")
 
 CLI = 'src/dcmstack/dcmstack_cli.py'
 NIT = 'src/dcmstack/nitool_cli.py'
@@ -28,13 +30,71 @@ def _const(node, what):
     return node.value
 
 
-def _options(fn, receiver_ok):
-    """dest -> {'default':..., 'action':..., 'nargs':..., 'type':..., 'flags': [...]} for every
-    <parser>.add_argument(...) call under `fn` whose receiver name satisfies `receiver_ok`."""
+# ------------------------------------------------------------------------------------------------ pattern matching
+
+def _locals_of(fn):
+    """names bound inside the function (assignment / for / with targets, parameters)"""
+    out = set(a.arg for a in fn.args.args)
+    for n in ast.walk(fn):
+        if isinstance(n, ast.Name) and isinstance(n.ctx, (ast.Store, ast.Del)):
+            out.add(n.id)
+    return out
+
+
+def _match(nodes, expected_src, local_names, what):
+    """Compare a list of statements with an expected snippet.  In the snippet, names starting with
+    `V_` stand for local variables (consistently and injectively renamed), the string constant '_S'
+    stands for any string literal.  Returns (env: placeholder -> actual name, list of matched strings)."""
+    exp = ast.parse(textwrap.dedent(expected_src)).body
+    env, rev, consts = {}, {}, []
+
+    def fail(msg, node=None):
+        raise TableError('%s: unexpected code shape (%s) at line %s' % (what, msg, getattr(node, 'lineno', '?')))
+
+    def cmp(a, e):
+        if isinstance(e, ast.Name) and e.id.startswith('V_'):
+            if not isinstance(a, ast.Name):
+                fail('expected a local variable, found %s' % type(a).__name__, a)
+            if a.id not in local_names:
+                fail('%s is not a local variable' % a.id, a)
+            if env.setdefault(e.id, a.id) != a.id or rev.setdefault(a.id, e.id) != e.id:
+                fail('variables are used inconsistently (%s)' % a.id, a)
+            if type(a.ctx) is not type(e.ctx):
+                fail('variable %s is read/written differently' % a.id, a)
+            return
+        if isinstance(e, ast.Constant) and e.value == '_S':
+            if not (isinstance(a, ast.Constant) and isinstance(a.value, str)):
+                fail('expected a string literal', a)
+            consts.append(a.value)
+            return
+        if type(a) is not type(e):
+            fail('expected %s, found %s' % (type(e).__name__, type(a).__name__), a if isinstance(a, ast.AST) else None)
+        if isinstance(e, ast.AST):
+            for f in e._fields:
+                if f in ('type_comment', 'kind'):
+                    continue
+                cmp(getattr(a, f, None), getattr(e, f, None))
+        elif isinstance(e, list):
+            if len(a) != len(e):
+                fail('expected %d items, found %d' % (len(e), len(a)), a[0] if a and isinstance(a[0], ast.AST) else None)
+            for x, y in zip(a, e):
+                cmp(x, y)
+        elif a != e:
+            fail('expected %r, found %r' % (e, a))
+    cmp(list(nodes), exp)
+    return env, consts
+
+
+# ------------------------------------------------------------------------------------------------ argparse
+
+def _options(fn, group_of):
+    """(group, dest) -> {'default':..., 'action':..., 'nargs':..., 'type':..., 'flags': [...]} for every
+    <parser>.add_argument(...) call under `fn`; `group_of(receiver variable name)` names the (sub-)parser."""
     out = {}
     for c in calls_in(fn, 'add_argument'):
-        if not (isinstance(c.func, ast.Attribute) and isinstance(c.func.value, ast.Name) and receiver_ok(c.func.value.id)):
-            continue
+        if not (isinstance(c.func, ast.Attribute) and isinstance(c.func.value, ast.Name)):
+            raise TableError('add_argument on something that is not a plain variable at line %d' % c.lineno)
+        grp = group_of(c.func.value.id)
         flags = []
         for a in c.args:
             v = _const(a, 'add_argument flag')
@@ -51,6 +111,8 @@ def _options(fn, receiver_ok):
                 raise TableError('add_argument with ** at line %d' % c.lineno)
             if k.arg == 'help':
                 continue
+            if k.arg == 'dest':
+                raise TableError('add_argument with an explicit dest at line %d: not modelled' % c.lineno)
             if k.arg == 'type':
                 kw['type'] = ast.unparse(k.value)
             elif k.arg == 'default' and not isinstance(k.value, ast.Constant):
@@ -58,7 +120,7 @@ def _options(fn, receiver_ok):
             else:
                 kw[k.arg] = _const(k.value, 'add_argument %s=' % k.arg)
         kw['flags'] = flags
-        key = (c.func.value.id, dest)
+        key = (grp, dest)
         if key in out:
             raise TableError('option %s defined twice' % dest)
         out[key] = kw
@@ -81,20 +143,30 @@ def _expect_opt(opts, parser, dest, flags, **want):
     return o
 
 
+# ------------------------------------------------------------------------------------------------ regex lists
+
 def _is_default_list(node, name):
     """`dcmstack.<name>` (the module attribute)."""
     return (isinstance(node, ast.Attribute) and node.attr == name and isinstance(node.value, ast.Name)
             and node.value.id == 'dcmstack')
 
 
-def _binding(fn, local, default_name, opt_attr):
-    """How `local` is derived from dcmstack.<default_name> and extended by args.<opt_attr>.
-    Returns True when the module list cannot be changed through `local` (copied, or never extended
-    in place), False when `local` aliases the module list and is extended in place."""
-    assigns = [st for st in ast.walk(fn) if isinstance(st, ast.Assign) and len(st.targets) == 1
-               and isinstance(st.targets[0], ast.Name) and st.targets[0].id == local]
-    if len(assigns) != 1:
-        raise TableError('expected exactly one assignment to %s in main, found %d' % (local, len(assigns)))
+def _mentions_default(node, name):
+    return any(_is_default_list(n, name) for n in ast.walk(node))
+
+
+def _binding(fn, default_name, opt_attr):
+    """How the local list is derived from dcmstack.<default_name> and extended by args.<opt_attr>.
+    Returns (local name, copied?) -- copied = the module list cannot be changed through the local."""
+    assigns = [st for st in ast.walk(fn) if isinstance(st, ast.Assign) and _mentions_default(st.value, default_name)]
+    if len(assigns) != 1 or len(assigns[0].targets) != 1 or not isinstance(assigns[0].targets[0], ast.Name):
+        raise TableError('expected exactly one `<local> = ...dcmstack.%s...` in main, found %d' % (default_name, len(assigns)))
+    local = assigns[0].targets[0].id
+    other = [st for st in ast.walk(fn) if isinstance(st, ast.Assign) and st is not assigns[0]
+             and any(isinstance(t, ast.Name) and t.id == local for t in st.targets)]
+    if other:
+        raise TableError('%s is assigned more than once' % local)
+    # no other use of the module list inside main except printing it (--default-regexes)
     v = assigns[0].value
     if _is_default_list(v, default_name):
         copied = False
@@ -125,8 +197,14 @@ def _binding(fn, local, default_name, opt_attr):
     guard = [st for st in ast.walk(fn) if isinstance(st, ast.If) and e in st.body]
     if len(guard) != 1 or ast.unparse(guard[0].test) != 'args.' + opt_attr or len(guard[0].body) != 1 or guard[0].orelse:
         raise TableError('the extension of %s is not guarded by `if args.%s:`' % (local, opt_attr))
-    return copied
+    # the module attribute must not be written anywhere in main
+    for n in ast.walk(fn):
+        if isinstance(n, ast.Attribute) and n.attr == default_name and isinstance(n.ctx, (ast.Store, ast.Del)):
+            raise TableError('dcmstack.%s is assigned inside main' % default_name)
+    return local, copied
 
+
+# ------------------------------------------------------------------------------------------------ naming
 
 _FMT_D = re.compile(r'^([^%]*)%(0?)([0-9]*)d([^%]*)$')
 _FMT_KEYED_D = re.compile(r'^%\(([A-Za-z_]\w*)\)(0?)([0-9]*)d$')
@@ -140,178 +218,181 @@ def _width(s):
     return w
 
 
+DEFAULT_FMT_BLOCK = '''
+if args.output_name is None:
+    V_fmt = []
+    if '_S' in V_meta:
+        V_fmt.append('_S')
+    if '_S' in V_meta:
+        V_fmt.append('_S')
+    elif '_S' in V_meta:
+        V_fmt.append('_S')
+    else:
+        V_fmt.append('_S')
+    V_fmt = '_S'.join(V_fmt)
+else:
+    V_fmt = args.output_name
+'''
+
+NAME_RETRY = '''
+V_fn = sanitize_path_comp(V_fmt % V_meta)
+if V_fn in V_set:
+    V_base = V_fn
+    V_sfx = V_idx
+    V_fn = V_base + '_S' % V_sfx
+    while V_fn in V_set:
+        V_sfx += 1
+        V_fn = V_base + '_S' % V_sfx
+V_set.add(V_fn)
+V_idx += 1
+V_fn = V_fn + args.output_ext
+'''
+
+NAME_SINGLE_AUG = '''
+V_fn = sanitize_path_comp(V_fmt % V_meta)
+if V_fn in V_set:
+    V_fn += '_S' % V_idx
+V_set.add(V_fn)
+V_idx += 1
+V_fn = V_fn + args.output_ext
+'''
+
+NAME_SINGLE = '''
+V_fn = sanitize_path_comp(V_fmt % V_meta)
+if V_fn in V_set:
+    V_fn = V_fn + '_S' % V_idx
+V_set.add(V_fn)
+V_idx += 1
+V_fn = V_fn + args.output_ext
+'''
+
+
 def _naming(fn):
     out = {}
+    loc = _locals_of(fn)
     # ---- default output format: the `if args.output_name is None:` block
     blocks = [st for st in ast.walk(fn) if isinstance(st, ast.If) and ast.unparse(st.test) == 'args.output_name is None']
     if len(blocks) != 1:
         raise TableError('expected exactly one `if args.output_name is None:` block, found %d' % len(blocks))
-    b = blocks[0]
-    want_else = 'out_fmt = args.output_name'
-    if len(b.orelse) != 1 or ast.unparse(b.orelse[0]) != want_else:
-        raise TableError('else-branch of the output_name test is not `%s`' % want_else)
-    body = b.body
-    if len(body) != 4:
-        raise TableError('default output format block has %d statements, expected 4' % len(body))
-    if ast.unparse(body[0]) != 'out_fmt = []':
-        raise TableError('default output format block does not start with `out_fmt = []`')
-
-    def appended(st):
-        if not (isinstance(st, ast.Expr) and isinstance(st.value, ast.Call) and ast.unparse(st.value.func) == 'out_fmt.append'
-                and len(st.value.args) == 1 and not st.value.keywords):
-            raise TableError('expected out_fmt.append(<literal>) at line %d' % st.lineno)
-        v = _const(st.value.args[0], 'out_fmt.append argument')
-        if not isinstance(v, str):
-            raise TableError('out_fmt.append argument is not a string at line %d' % st.lineno)
-        return v
-
-    def in_meta(test):
-        if not (isinstance(test, ast.Compare) and len(test.ops) == 1 and isinstance(test.ops[0], ast.In)
-                and ast.unparse(test.comparators[0]) == 'meta'):
-            raise TableError('expected `<key> in meta` at line %d' % test.lineno)
-        k = _const(test.left, 'key of the `in meta` test')
-        if not isinstance(k, str):
-            raise TableError('key of the `in meta` test is not a string')
-        return k
-    # if 'SeriesNumber' in meta: out_fmt.append('%(SeriesNumber)03d')
-    s1 = body[1]
-    if not (isinstance(s1, ast.If) and len(s1.body) == 1 and not s1.orelse):
-        raise TableError('unexpected shape of the series-number format statement')
-    k1 = in_meta(s1.test)
-    m = _FMT_KEYED_D.match(appended(s1.body[0]))
+    env0, cs = _match([blocks[0]], DEFAULT_FMT_BLOCK, loc, 'default output name format')
+    k1, f1, k2, f2, k3, f3, fallback, sep = cs
+    m = _FMT_KEYED_D.match(f1)
     if not m or m.group(1) != k1:
-        raise TableError('series-number format does not use the key it tests (%s)' % k1)
+        raise TableError('series-number format %r does not use the key it tests (%s)' % (f1, k1))
     out['num_key'], out['num_zero'], out['num_width'] = k1, m.group(2) == '0', _width(m.group(3))
-    # if 'ProtocolName' in meta: ... elif 'SeriesDescription' in meta: ... else: append('series')
-    s2 = body[2]
-    if not (isinstance(s2, ast.If) and len(s2.body) == 1 and len(s2.orelse) == 1 and isinstance(s2.orelse[0], ast.If)):
-        raise TableError('unexpected shape of the protocol-name format statement')
-    k2 = in_meta(s2.test)
-    m = _FMT_KEYED_S.match(appended(s2.body[0]))
+    m = _FMT_KEYED_S.match(f2)
     if not m or m.group(1) != k2:
-        raise TableError('protocol-name format does not use the key it tests (%s)' % k2)
-    s3 = s2.orelse[0]
-    if not (len(s3.body) == 1 and len(s3.orelse) == 1):
-        raise TableError('unexpected shape of the series-description format statement')
-    k3 = in_meta(s3.test)
-    m = _FMT_KEYED_S.match(appended(s3.body[0]))
+        raise TableError('protocol-name format %r does not use the key it tests (%s)' % (f2, k2))
+    m = _FMT_KEYED_S.match(f3)
     if not m or m.group(1) != k3:
-        raise TableError('series-description format does not use the key it tests (%s)' % k3)
-    fallback = appended(s3.orelse[0])
-    if '%' in fallback:
-        raise TableError('fallback name contains a format directive')
-    out['name_key1'], out['name_key2'], out['name_fallback'] = k2, k3, fallback
-    # out_fmt = '-'.join(out_fmt)
-    j = body[3]
-    if not (isinstance(j, ast.Assign) and ast.unparse(j.targets[0]) == 'out_fmt' and isinstance(j.value, ast.Call)
-            and isinstance(j.value.func, ast.Attribute) and j.value.func.attr == 'join'
-            and ast.unparse(j.value.args[0]) == 'out_fmt' and isinstance(j.value.func.value, ast.Constant)):
-        raise TableError('default output format is not joined by a literal separator')
-    sep = j.value.func.value.value
-    if not isinstance(sep, str) or '%' in sep:
-        raise TableError('bad separator of the default output format')
-    out['name_sep'] = sep
-    # ---- the uniqueness suffix: every `<base> + '<fmt>' % <idx>` must use the same literal; the search is
-    #      either a single append (`out_fn += fmt % out_idx`) or a re-check loop (`while out_fn in generated_outs`)
-    fmts = set()
-    for n in ast.walk(fn):
-        if (isinstance(n, ast.BinOp) and isinstance(n.op, ast.Mod) and isinstance(n.left, ast.Constant)
-                and isinstance(n.left.value, str) and ast.unparse(n.right) in ('sfx_idx', 'out_idx')):
-            fmts.add(n.left.value)
-    if len(fmts) != 1:
-        raise TableError('expected one suffix format applied to sfx_idx / out_idx, found %r' % sorted(fmts))
-    m = _FMT_D.match(fmts.pop())
+        raise TableError('series-description format %r does not use the key it tests (%s)' % (f3, k3))
+    if '%' in fallback or '%' in sep:
+        raise TableError('fallback name / separator contains a format directive')
+    out['name_key1'], out['name_key2'], out['name_fallback'], out['name_sep'] = k2, k3, fallback, sep
+
+    # ---- the group loop:  for key, group in iteritems(groups): ... the five naming statements
+    loops = [st for st in ast.walk(fn) if isinstance(st, ast.For) and blocks[0] in st.body]
+    if len(loops) != 1:
+        raise TableError('the default-format block is not directly inside one loop')
+    gl = loops[0]
+    i0 = gl.body.index(blocks[0])
+    stmts = gl.body[i0 + 1:i0 + 6]
+    env, fm, retry = None, None, None
+    errs = []
+    for snippet, r in ((NAME_RETRY, True), (NAME_SINGLE_AUG, False), (NAME_SINGLE, False)):
+        try:
+            env, fm = _match(stmts, snippet, loc, 'output naming')
+            retry = r
+            break
+        except TableError as e:
+            errs.append(str(e))
+    if env is None:
+        raise TableError('the statements after the default-format block are neither the re-check loop nor the single append: ' + errs[0])
+    if len(set(fm)) != 1:
+        raise TableError('the suffix is formatted with different literals: %r' % fm)
+    if env['V_fmt'] != env0['V_fmt'] or env['V_meta'] != env0['V_meta']:
+        raise TableError('the natural name is not built from the format chosen just before')
+    m = _FMT_D.match(fm[0])
     if not m:
         raise TableError('suffix format is not <text>%[0][width]d<text>')
     out['sfx_prefix'], out['sfx_zero'], out['sfx_width'], out['sfx_tail'] = m.group(1), m.group(2) == '0', _width(m.group(3)), m.group(4)
-    guards = [st for st in ast.walk(fn) if isinstance(st, ast.If) and ast.unparse(st.test) == 'out_fn in generated_outs']
-    if len(guards) != 1 or guards[0].orelse:
-        raise TableError('expected exactly one `if out_fn in generated_outs:` without else')
-    loops = [st for st in ast.walk(guards[0]) if isinstance(st, (ast.While, ast.For))]
-    body = [ast.unparse(st) for st in guards[0].body]
-    if not loops:
-        f = "'%s' %% out_idx" % (m.group(0))
-        if body not in (["out_fn += " + f], ["out_fn = out_fn + " + f]):
-            raise TableError('unrecognised single-append form of the uniqueness suffix: %r' % body)
-        out['sfx_retry'] = False
-    else:
-        f = "'%s' %% sfx_idx" % (m.group(0))
-        want = ['base_fn = out_fn', 'sfx_idx = out_idx', 'out_fn = base_fn + ' + f,
-                'while out_fn in generated_outs:\n    sfx_idx += 1\n    out_fn = base_fn + ' + f]
-        if body != want:
-            raise TableError('unrecognised re-check loop of the uniqueness suffix: %r' % body)
-        out['sfx_retry'] = True
-    # the bookkeeping after the test: generated_outs.add(out_fn); out_idx += 1; out_fn = out_fn + args.output_ext
-    loop = [st for st in ast.walk(fn) if isinstance(st, ast.For) and guards[0] in st.body]
-    if len(loop) != 1:
-        raise TableError('the uniqueness test is not directly inside the group loop')
-    i = loop[0].body.index(guards[0])
-    after = [ast.unparse(st) for st in loop[0].body[i + 1:i + 4]]
-    if after != ['generated_outs.add(out_fn)', 'out_idx += 1', 'out_fn = out_fn + args.output_ext']:
-        raise TableError('unexpected bookkeeping after the uniqueness test: %r' % after)
-    before = ast.unparse(loop[0].body[i - 1])
-    if before != 'out_fn = sanitize_path_comp(out_fmt % meta)':
-        raise TableError('the natural name is not sanitize_path_comp(out_fmt %% meta): %r' % before)
-    # where the set of generated names lives: reset for every source directory (names unique per source
-    # directory only), or -- with --dest-dir -- one set shared by all source directories of the invocation
-    dirloops = [st for st in ast.walk(fn) if isinstance(st, ast.For) and ast.unparse(st.target) == 'src_dir'
-                and ast.unparse(st.iter) == 'args.src_dirs']
-    if len(dirloops) != 1 or loop[0] not in dirloops[0].body:
-        raise TableError('the group loop is not directly inside the one `for src_dir in args.src_dirs` loop')
+    out['sfx_retry'] = retry
+    v_set, v_idx, v_fn = env['V_set'], env['V_idx'], env['V_fn']
+    # the name and the counter are not touched elsewhere in the group loop before the file is written
+    for st in gl.body[:i0]:
+        for n in ast.walk(st):
+            if isinstance(n, ast.Name) and n.id in (v_set, v_idx) and isinstance(n.ctx, ast.Store):
+                raise TableError('%s is re-bound inside the group loop' % n.id)
+    for st in gl.body[i0 + 6:]:
+        for n in ast.walk(st):
+            if isinstance(n, ast.Name) and n.id in (v_set, v_idx, v_fn) and isinstance(n.ctx, ast.Store):
+                raise TableError('%s is re-bound after the uniqueness code' % n.id)
+
+    # ---- where the set of generated names lives
+    dirloops = [st for st in ast.walk(fn) if isinstance(st, ast.For) and gl in st.body]
+    if len(dirloops) != 1 or ast.unparse(dirloops[0].iter) != 'args.src_dirs' or dirloops[0] not in fn.body:
+        raise TableError('the group loop is not directly inside the one top-level `for ... in args.src_dirs` loop')
     dl = dirloops[0]
-    inits = [ast.unparse(st) for st in ast.walk(fn) if isinstance(st, ast.Assign)
-             and ast.unparse(st.targets[0]) in ('out_idx', 'generated_outs', 'dest_dir_outs')]
-    top = [ast.unparse(st) for st in dl.body]
-    if sorted(inits) == ['generated_outs = set()', 'out_idx = 0']:
-        if 'generated_outs = set()' not in top or 'out_idx = 0' not in top:
-            raise TableError('out_idx / generated_outs are not initialised once per source directory')
-        out['shared_dest'] = False
-    elif sorted(inits) == ['dest_dir_outs = set()', 'generated_outs = dest_dir_outs', 'generated_outs = set()', 'out_idx = 0']:
-        want_if = 'if args.dest_dir:\n    generated_outs = dest_dir_outs\nelse:\n    generated_outs = set()'
-        if want_if not in top or 'out_idx = 0' not in top:
-            raise TableError('unrecognised per-directory initialisation of generated_outs / out_idx: %r' % [t for t in top if 'generated_outs' in t or 'out_idx' in t])
-        main_top = [ast.unparse(st) for st in fn.body]
-        if 'dest_dir_outs = set()' not in main_top or main_top.index('dest_dir_outs = set()') > fn.body.index(dl):
-            raise TableError('dest_dir_outs is not initialised once before the source directory loop')
-        if any(isinstance(n, ast.Name) and n.id == 'dest_dir_outs' and isinstance(n.ctx, ast.Store) for n in ast.walk(dl)):
-            raise TableError('dest_dir_outs is re-bound inside the source directory loop')
-        out['shared_dest'] = True
-    else:
-        raise TableError('out_idx / generated_outs are initialised in an unrecognised way: %r' % inits)
+    def binds(st):
+        return any(isinstance(n, ast.Name) and n.id in (v_set, v_idx) and isinstance(n.ctx, (ast.Store, ast.Del)) for n in ast.walk(st))
+    gi = dl.body.index(gl)
+    per_dir = [st for st in dl.body[:gi] if binds(st)]
+    if any(binds(st) for st in fn.body if st is not dl) or any(binds(st) for st in dl.body[gi + 1:]):
+        raise TableError('%s / %s are bound outside the source directory loop body' % (v_set, v_idx))
+    if not per_dir:
+        raise TableError('the name set / counter are not initialised per source directory before the group loop')
+    try:
+        e1, _ = _match(per_dir, 'V_idx = 0\nV_set = set()', loc, 'per-directory initialisation')
+        shared = False
+    except TableError:
+        try:
+            e1, _ = _match(per_dir, 'V_set = set()\nV_idx = 0', loc, 'per-directory initialisation')
+            shared = False
+        except TableError:
+            e1, _ = _match(per_dir, 'V_idx = 0\nif args.dest_dir:\n    V_set = V_all\nelse:\n    V_set = set()', loc,
+                           'per-directory initialisation')
+            shared = True
+    if e1['V_idx'] != v_idx or e1['V_set'] != v_set:
+        raise TableError('the per-directory initialisation does not initialise %s and %s' % (v_idx, v_set))
+    if shared:
+        v_all = e1['V_all']
+        tops = [st for st in fn.body if isinstance(st, ast.Assign)]
+        init = [st for st in tops if len(st.targets) == 1 and isinstance(st.targets[0], ast.Name) and st.targets[0].id == v_all]
+        if len(init) != 1 or ast.unparse(init[0].value) != 'set()' or fn.body.index(init[0]) > fn.body.index(dl):
+            raise TableError('%s is not initialised once by set() before the source directory loop' % v_all)
+        for n in ast.walk(fn):
+            if isinstance(n, ast.Name) and n.id == v_all and isinstance(n.ctx, (ast.Store, ast.Del)) and n is not init[0].targets[0]:
+                raise TableError('%s is re-bound' % v_all)
+        for n in ast.walk(fn):
+            if (isinstance(n, ast.Call) and isinstance(n.func, ast.Attribute) and isinstance(n.func.value, ast.Name)
+                    and n.func.value.id == v_all):
+                raise TableError('%s is modified directly (.%s)' % (v_all, n.func.attr))
+    out['shared_dest'] = shared
     return out
+
+
+SANITIZE = '''
+V_res = []
+for V_c in V_arg:
+    if not V_c in ascii_letters + string.digits + '_S':
+        V_res.append('_S')
+    else:
+        V_res.append(V_c)
+return ''.join(V_res)
+'''
 
 
 def _sanitize(tree):
     fn = find_func(tree, 'sanitize_path_comp')
-    tests = [n for n in ast.walk(fn) if isinstance(n, ast.Compare)]
-    if len(tests) != 1 or len(tests[0].ops) != 1 or not isinstance(tests[0].ops[0], ast.In):
-        raise TableError('sanitize_path_comp: expected exactly one `in` test')
-    ifs = [n for n in ast.walk(fn) if isinstance(n, ast.If)]
-    if len(ifs) != 1 or not (isinstance(ifs[0].test, ast.UnaryOp) and isinstance(ifs[0].test.op, ast.Not) and ifs[0].test.operand is tests[0]):
-        raise TableError('sanitize_path_comp: the membership test is not of the form `if not char in ...`')
-    if ast.unparse(tests[0].left) != 'char':
-        raise TableError('sanitize_path_comp: the membership test is not on `char`')
-    alpha = tests[0].comparators[0]
-    # ascii_letters + string.digits + '<extra>'
-    if not (isinstance(alpha, ast.BinOp) and isinstance(alpha.op, ast.Add) and isinstance(alpha.left, ast.BinOp)
-            and isinstance(alpha.left.op, ast.Add) and ast.unparse(alpha.left.left) == 'ascii_letters'
-            and ast.unparse(alpha.left.right) == 'string.digits' and isinstance(alpha.right, ast.Constant)
-            and isinstance(alpha.right.value, str)):
-        raise TableError('sanitize_path_comp: allowed characters are not ascii_letters + string.digits + <literal>: %s' % ast.unparse(alpha))
-    extra = alpha.right.value
-    apps = [c for c in calls_in(fn, 'append')]
-    if len(apps) != 2:
-        raise TableError('sanitize_path_comp: expected two result.append calls')
-    if ast.unparse(ifs[0].body[0]) != "result.append(%r)" % _const(ifs[0].body[0].value.args[0], 'replacement') or len(ifs[0].body) != 1:
-        raise TableError('sanitize_path_comp: replacement branch has an unexpected shape')
-    repl = ifs[0].body[0].value.args[0].value
-    if not (isinstance(repl, str) and len(repl) == 1):
+    if len(fn.args.args) != 1 or fn.args.vararg or fn.args.kwarg or fn.args.kwonlyargs or fn.args.defaults:
+        raise TableError('sanitize_path_comp does not take exactly one plain argument')
+    body = [st for st in fn.body if not (isinstance(st, ast.Expr) and isinstance(st.value, ast.Constant))]
+    env, cs = _match(body, SANITIZE, _locals_of(fn), 'sanitize_path_comp')
+    if env['V_arg'] != fn.args.args[0].arg:
+        raise TableError('sanitize_path_comp does not iterate over its argument')
+    extra, repl = cs
+    if len(repl) != 1:
         raise TableError('sanitize_path_comp: replacement is not a single character')
-    if len(ifs[0].orelse) != 1 or ast.unparse(ifs[0].orelse[0]) != 'result.append(char)':
-        raise TableError('sanitize_path_comp: keep branch is not result.append(char)')
-    rets = [n for n in ast.walk(fn) if isinstance(n, ast.Return)]
-    if len(rets) != 1 or ast.unparse(rets[0].value) != "''.join(result)":
-        raise TableError("sanitize_path_comp: does not return ''.join(result)")
     return extra, repl
 
 
@@ -320,8 +401,12 @@ def _private_rules(fn):
     if len(blocks) != 1 or len(blocks[0].body) != 1 or blocks[0].orelse:
         raise TableError('unexpected shape of the `if args.extract_private:` block')
     st = blocks[0].body[0]
-    if not (isinstance(st, ast.Assign) and ast.unparse(st.targets[0]) == 'ignore_rules' and isinstance(st.value, ast.Tuple)):
-        raise TableError('--extract-private does not assign a tuple display to ignore_rules')
+    if not (isinstance(st, ast.Assign) and len(st.targets) == 1 and isinstance(st.targets[0], ast.Name) and isinstance(st.value, ast.Tuple)):
+        raise TableError('--extract-private does not assign a tuple display to a variable')
+    var = st.targets[0].id
+    me = calls_in(fn, 'MetaExtractor')
+    if len(me) != 1 or len(me[0].args) != 2 or me[0].keywords or not isinstance(me[0].args[0], ast.Name) or me[0].args[0].id != var:
+        raise TableError('the tuple assigned under --extract-private is not the first argument of the one MetaExtractor(...) call')
     names = []
     for e in st.value.elts:
         if not (isinstance(e, ast.Attribute) and isinstance(e.value, ast.Name) and e.value.id == 'extract'):
@@ -337,13 +422,10 @@ def _bool(b):
 def emit(src):
     t = src.tree(CLI)
     main = find_func(t, 'main')
-    opts = _options(main, lambda r: r == 'arg_parser' or r.endswith('_opt'))
-    P = {k[1]: k[0] for k in opts}
+    opts = _options(main, lambda r: 'dcmstack')
 
     def opt(dest, flags, **want):
-        if dest not in P:
-            raise TableError('option %s not found in dcmstack_cli.main' % dest)
-        return _expect_opt(opts, P[dest], dest, flags, **want)
+        return _expect_opt(opts, 'dcmstack', dest, flags, **want)
     opt('src_dirs', ['src_dirs'], nargs='*')
     opt('force_read', ['--force-read'], action='store_true', default=False)
     file_ext = opt('file_ext', ['--file-ext'], default='.dcm')['default']
@@ -370,15 +452,16 @@ def emit(src):
     if len(opts) != 23:
         raise TableError('dcmstack_cli.main defines %d options, the model knows 23: %r' % (len(opts), sorted(k[1] for k in opts)))
 
-    incl_copied = _binding(main, 'include_regexes', 'default_key_incl_res', 'include_regex')
-    excl_copied = _binding(main, 'exclude_regexes', 'default_key_excl_res', 'exclude_regex')
+    incl_local, incl_copied = _binding(main, 'default_key_incl_res', 'include_regex')
+    excl_local, excl_copied = _binding(main, 'default_key_excl_res', 'exclude_regex')
     # the filter is built from exactly these two locals
     fcalls = calls_in(main, 'make_key_regex_filter')
-    if len(fcalls) != 1 or [ast.unparse(a) for a in fcalls[0].args] != ['exclude_regexes', 'include_regexes'] or fcalls[0].keywords:
-        raise TableError('meta_filter is not make_key_regex_filter(exclude_regexes, include_regexes)')
+    if len(fcalls) != 1 or [ast.unparse(a) for a in fcalls[0].args] != [excl_local, incl_local] or fcalls[0].keywords:
+        raise TableError('meta_filter is not make_key_regex_filter(<exclude list>, <include list>)')
     # group_by falls back to the imported module default (a tuple: immutable)
-    gb = [st for st in ast.walk(main) if isinstance(st, ast.Assign) and ast.unparse(st.targets[0]) == 'group_by']
-    if sorted(ast.unparse(st.value) for st in gb) != ["args.group_by.split(',')", 'default_group_keys']:
+    gb = [st for st in ast.walk(main) if isinstance(st, ast.Assign) and ast.unparse(st.value) in ("args.group_by.split(',')", 'default_group_keys')]
+    if sorted(ast.unparse(st.value) for st in gb) != ["args.group_by.split(',')", 'default_group_keys'] or \
+            len(set(ast.unparse(st.targets[0]) for st in gb)) != 1:
         raise TableError('group_by is not args.group_by.split(\',\') / default_group_keys')
 
     nm = _naming(main)
@@ -388,34 +471,44 @@ def emit(src):
     # ---- nitool
     nt = src.tree(NIT)
     nmain = find_func(nt, 'main')
-    nopts = _options(nmain, lambda r: r.endswith('_parser'))
+    sub = {}
+    for st in ast.walk(nmain):
+        if (isinstance(st, ast.Assign) and len(st.targets) == 1 and isinstance(st.targets[0], ast.Name) and isinstance(st.value, ast.Call)
+                and isinstance(st.value.func, ast.Attribute) and st.value.func.attr == 'add_parser' and st.value.args):
+            sub[st.targets[0].id] = _const(st.value.args[0], 'sub-command name')
+
+    def grp(r):
+        if r not in sub:
+            raise TableError('nitool: add_argument on %s, which is not a sub-command parser' % r)
+        return sub[r]
+    nopts = _options(nmain, grp)
 
     def nopt(parser, dest, flags, **want):
         return _expect_opt(nopts, parser, dest, flags, **want)
-    nopt('split_parser', 'src_nii', ['src_nii'], nargs=1)
-    nopt('split_parser', 'dimension', ['-d', '--dimension'], default=None, type='int')
-    nopt('split_parser', 'output_format', ['-o', '--output-format'], default=None)
-    nopt('merge_parser', 'output', ['output'], nargs=1)
-    nopt('merge_parser', 'src_niis', ['src_niis'], nargs='+')
-    nopt('merge_parser', 'dimension', ['-d', '--dimension'], default=None, type='int')
-    nopt('merge_parser', 'sort', ['-s', '--sort'], default=None)
-    nopt('merge_parser', 'clear_slices', ['-c', '--clear-slices'], action='store_true')
-    nopt('dump_parser', 'src_nii', ['src_nii'], nargs=1)
-    nopt('dump_parser', 'dest_json', ['dest_json'], nargs='?', type="argparse.FileType('w')", default=('expr', 'sys.stdout'))
-    nopt('dump_parser', 'make_empty', ['-m', '--make-empty'], action='store_true', default=False)
-    nopt('dump_parser', 'remove', ['-r', '--remove'], action='store_true', default=False)
-    nopt('embed_parser', 'src_json', ['src_json'], nargs='?', type="argparse.FileType('r')", default=('expr', 'sys.stdin'))
-    nopt('embed_parser', 'dest_nii', ['dest_nii'], nargs=1)
-    nopt('embed_parser', 'force_overwrite', ['-f', '--force-overwrite'], action='store_true')
-    nopt('lookup_parser', 'key', ['key'], nargs=1)
-    nopt('lookup_parser', 'src_nii', ['src_nii'], nargs=1)
-    nopt('lookup_parser', 'index', ['-i', '--index'])
-    nopt('inject_parser', 'dest_nii', ['dest_nii'], nargs=1)
-    nopt('inject_parser', 'classification', ['classification'], nargs=2)
-    nopt('inject_parser', 'key', ['key'], nargs=1)
-    nopt('inject_parser', 'values', ['values'], nargs='+')
-    nopt('inject_parser', 'force_overwrite', ['-f', '--force-overwrite'], action='store_true')
-    nopt('inject_parser', 'type', ['-t', '--type'], default=None)
+    nopt('split', 'src_nii', ['src_nii'], nargs=1)
+    nopt('split', 'dimension', ['-d', '--dimension'], default=None, type='int')
+    nopt('split', 'output_format', ['-o', '--output-format'], default=None)
+    nopt('merge', 'output', ['output'], nargs=1)
+    nopt('merge', 'src_niis', ['src_niis'], nargs='+')
+    nopt('merge', 'dimension', ['-d', '--dimension'], default=None, type='int')
+    nopt('merge', 'sort', ['-s', '--sort'], default=None)
+    nopt('merge', 'clear_slices', ['-c', '--clear-slices'], action='store_true')
+    nopt('dump', 'src_nii', ['src_nii'], nargs=1)
+    nopt('dump', 'dest_json', ['dest_json'], nargs='?', type="argparse.FileType('w')", default=('expr', 'sys.stdout'))
+    nopt('dump', 'make_empty', ['-m', '--make-empty'], action='store_true', default=False)
+    nopt('dump', 'remove', ['-r', '--remove'], action='store_true', default=False)
+    nopt('embed', 'src_json', ['src_json'], nargs='?', type="argparse.FileType('r')", default=('expr', 'sys.stdin'))
+    nopt('embed', 'dest_nii', ['dest_nii'], nargs=1)
+    nopt('embed', 'force_overwrite', ['-f', '--force-overwrite'], action='store_true')
+    nopt('lookup', 'key', ['key'], nargs=1)
+    nopt('lookup', 'src_nii', ['src_nii'], nargs=1)
+    nopt('lookup', 'index', ['-i', '--index'])
+    nopt('inject', 'dest_nii', ['dest_nii'], nargs=1)
+    nopt('inject', 'classification', ['classification'], nargs=2)
+    nopt('inject', 'key', ['key'], nargs=1)
+    nopt('inject', 'values', ['values'], nargs='+')
+    nopt('inject', 'force_overwrite', ['-f', '--force-overwrite'], action='store_true')
+    nopt('inject', 'type', ['-t', '--type'], default=None)
     if len(nopts) != 24:
         raise TableError('nitool_cli.main defines %d arguments, the model knows 24' % len(nopts))
     sp = find_func(nt, 'split')
@@ -426,10 +519,10 @@ def emit(src):
     m = re.match(r'^%(0?)([0-9]*)d([^%]*)%s$', sfm[0])
     if not m:
         raise TableError('nitool split: default name format is not %%[0][w]d<sep>%%s: %r' % sfm[0])
-    # accepted literal type names of `inject --type`
+    # accepted literal type names of `inject --type`, and the automatic conversion order
     cv = find_func(nt, 'convert_values')
     tn = [lit(n.comparators[0]) for n in ast.walk(cv) if isinstance(n, ast.Compare) and len(n.ops) == 1
-          and isinstance(n.ops[0], ast.NotIn) and ast.unparse(n.left) == 'type_str']
+          and isinstance(n.ops[0], ast.NotIn)]
     if len(tn) != 1 or sorted(tn[0]) != ['float', 'int', 'str']:
         raise TableError('convert_values: accepted type names changed: %r' % (tn,))
     auto = [ast.unparse(n.iter) for n in ast.walk(cv) if isinstance(n, ast.For)]
